@@ -113,3 +113,9 @@ CHECKS["C19"] = dict(
     text="Catalogue enumeration is the weakest use of the family in this document, but it is a complete enumeration of a stated finite space judged by a differential oracle: restored == original, Debug rendering unchanged (catches private fields), re-serialisation byte-identical, answers bit-identical on the whole query lattice (JSON: unless decimal rounding changed a bit), m == m, m == refit, m != model fitted on different rows and targets. Randomised estimators are fitted under the owned RNG.",
     note="Lasso/ElasticNet left out of the micro families (termination belongs to C08); iterative solvers without extreme-scale variants.",
 )
+CHECKS["C08"] = dict(
+    engine="E1",
+    technique="exhaustive enumeration of Lasso / elastic-net problems (p in {1,2} (3), n=p+1..p+3, every X over {0,1,-1,2} without / with a constant column, every y over {-2,0,1,3}^n, alpha in {1e-3,.1,1,10}, l1_ratio in {.25,.5,1}, target shifts {0,10,1e4}, tol in {1e-3,1e-4,1e-6}, normalise on/off, every invalid setting) judged against the EXACT minimum of the stated objective obtained by enumerating all 3^p sign patterns; per-case termination guard",
+    text="The statement is 'within a small multiple of tol of the true minimum', so the oracle computes the true minimum (restricted least squares per sign pattern, minimum over all patterns) rather than trusting KKT bookkeeping; mapping back of coefficients and intercept, predict = Xw+b, l1_ratio=1 equals Lasso, target-shift invariance and every invalid setting returning Err are checked on the same cases; a fit that does not return is a violation of 'terminates'.",
+    note="Slack 4*tol (calibrated worst case 1.0*tol over 277 M Lasso fits); designs with condition number > 1e4 are counted, not fitted; classes in which the unchanged library loops run under a 500 ms CPU-time guard on a helper thread.",
+)
